@@ -7,16 +7,21 @@ ID = "C16"
 LEAN_MODULES = ["MjwVerif.Props.C16"]
 GEN_FUNCS = ["constraint._equality_connect__kernel", "constraint._equality_weld__kernel", "constraint._equality_joint__kernel", "constraint._limit_slide_hinge__kernel",
              "constraint._friction_dof__kernel", "constraint._efc_contact_init__kernel", "collision_core.write_contact", "collision_driver._add_geom_pair",
-             "forward._next_time_builder___next_time"]
+             "forward._next_time_builder___next_time", "constraint._nnz_overflow"]
 KERNELS = ["constraint._equality_connect__kernel", "constraint._equality_weld__kernel", "constraint._equality_joint__kernel", "constraint._limit_slide_hinge__kernel",
-           "constraint._friction_dof__kernel", "constraint._efc_contact_init__kernel", "forward._next_time_builder___next_time"]
+           "constraint._friction_dof__kernel", "constraint._efc_contact_init__kernel", "forward._next_time_builder___next_time", "constraint._nnz_overflow"]
 LEVEL_TEXT = ("Theorems: (model) a capacity-C arena with the ideal guard grants every request in every thread order iff the final counter does not exceed C, blocks disjoint and in range, "
               "report fires iff something was dropped; (generated kernels, regenerated from constraint.py/collision_core.py/collision_driver.py/forward.py on every run) for each of the 11 row "
               "builders, write_contact and _add_geom_pair: rows/slots are written iff `alloc + k <= capacity` (exact fit included) and every written index is in bounds; `_next_time` sets "
-              "NEFC/BROADPHASE/NARROWPHASE bits iff the counters exceed the capacities; combined: no NEFC bit => every builder thread wrote all its rows. "
-              "The sparse NNZ budget is NOT reliably reported (machine-checked witnesses; known finding). 'Equal to ample capacities' is sampled by capacity sweeps 0..need+1.")
-LEVEL_NOTE = ("C16_partial: NNZ reporting (known finding), nvmax/CCD/EPA/hfield/contact-match budgets and flex builders are covered by the sampled sweep only. Trusted: Lean kernel, tier-B "
-              "translator (launch interception incl. serial replay of allocation results).")
+              "NEFC/BROADPHASE/NARROWPHASE bits iff the counters exceed the capacities; combined: no NEFC bit => every thread of every builder wrote all its rows (row_overflow_never_silent_all). "
+              "Sparse NNZ budget: for every builder, every thread whose nnz request is not granted, every order: the efc_nnz counter exceeds njmax_nnz and `_nnz_overflow` writes the NJMAX_NNZ bit; "
+              "if every request is granted it writes nothing (nnz_overflow_never_silent); a dropped row leaves rownnz = 0, no rowadr, no row (<builder>_dropped_row_has_no_nonzeros). "
+              "Two defects were found by this check and repaired in /repo: 'fix: equality connect/weld rows were dropped silently when they fit the row capacity exactly' and "
+              "'fix: njmax_nnz overflow was silent unless the last constraint row happened to record it' (+ 'fix: a row dropped for lack of njmax_nnz kept its non-zero count'); their triggers "
+              "(exact-fit njmax with connect/weld, njmax_nnz sweep below the need) stay in the sweep as regression cases. 'Equal to ample capacities' is sampled by capacity sweeps 0..need+1.")
+LEVEL_NOTE = ("C16_partial: the arena/report theorems are per counter (rows, contacts, pairs, nnz); that the nnz requests are non-negative and that the sparse efc_J/efc_J_colind addresses of a "
+              "granted row stay below njmax_nnz is not proved; nvmax/CCD/EPA/hfield/contact-match budgets and the flexstrain builder (not translated) are covered by the sampled sweep only. "
+              "Trusted: Lean kernel, tier-B translator (launch interception incl. serial replay of allocation results).")
 ASSUMPTIONS = ["allocation results are modelled as inputs of a task and supplied by the arena model in any serial order; CUDA atomics are assumed linearizable"]
 
 XML = """
@@ -71,6 +76,23 @@ def _run(ctx, ncases, rec, per_kernel=1):
       need_con = int(d0.nacon.numpy()[0])
       ref_qacc = d0.qacc.numpy().copy()
       acc.hit(f"eq:{eq[1:6] or 'none'}")
+      need_efc_w = d0.nefc.numpy().astype(int)
+      CAP = 0x1FF   # capacity bits (NEFC .. EPA_HORIZON); ITERATIONS / LS_ITERATIONS are not capacities
+
+      def judge(d, what, short_w, short_global, site, **rep):
+        """short_w[w]: world w's own demand exceeds the capacity; short_global: a buffer shared by all worlds is exceeded"""
+        ovf = d.overflow.numpy().astype(int) & CAP
+        q = d.qacc.numpy()
+        for w in range(nworld):
+          if short_w[w] and not ovf[w]:
+            acc.find(f"{what}: world {w} exceeds the capacity but its overflow word has no capacity bit", site, "silent-overflow", xml=xml, world=w, **rep)
+          if not ovf[w] and not np.allclose(q[w], ref_qacc[w], rtol=1e-3, atol=1e-3 * (1 + np.abs(ref_qacc[w]).max())):
+            trig = "exact-fit-rows-dropped" if (rep.get("njmax") == need_efc and eq and ("connect" in eq or "weld" in eq)) else "no-bit-but-different"
+            acc.find(f"{what}: world {w} has no capacity bit but its qacc differs from the ample-capacity result (max |d| {float(np.abs(q[w] - ref_qacc[w]).max()):.3g})",
+                     site, trig, xml=xml, world=w, **rep)
+        if short_global and not ovf.any():
+          acc.find(f"{what}: a shared buffer is exceeded but no world has a capacity bit", site, "silent-overflow", xml=xml, **rep)
+
       for njmax in sorted(set([0, 1, max(need_efc - 1, 0), need_efc, need_efc + 1, int(rng.integers(0, need_efc + 2))])):
         for naconmax in sorted(set([need_con, max(need_con - 1, 0), need_con + 1])):
           try:
@@ -78,25 +100,27 @@ def _run(ctx, ncases, rec, per_kernel=1):
           except ValueError:
             continue
           acc.evals += 1
-          ovf = d.overflow.numpy() if hasattr(d, "overflow") else None
           acc.distinct.add((c, njmax, naconmax))
-          nefc = d.nefc.numpy()
-          short_efc = need_efc > njmax
-          short_con = need_con > naconmax
-          any_bit = bool((ovf != 0).any())
-          if (short_efc or short_con) and not any_bit:
-            acc.find(f"capacity exceeded (need nefc={need_efc}, njmax={njmax}; need ncon={need_con}, naconmax={naconmax}) but no overflow bit", "forward._next_time", "silent-overflow",
-                     xml=xml, njmax=njmax, naconmax=naconmax)
-          if not any_bit:
-            q = d.qacc.numpy()
-            if not np.allclose(q, ref_qacc, rtol=1e-3, atol=1e-3 * (1 + np.abs(ref_qacc).max())):
-              trig = "exact-fit-rows-dropped" if (njmax == need_efc and eq and ("connect" in eq or "weld" in eq)) else "no-bit-but-different"
-              acc.find(f"no overflow bit but qacc differs from the ample-capacity result (njmax={njmax}, need {need_efc}; naconmax={naconmax}, need {need_con})",
-                       "constraint.make_constraint", trig, xml=xml, njmax=njmax, naconmax=naconmax, max_abs_diff=float(np.abs(q - ref_qacc).max()))
+          judge(d, f"njmax={njmax} (need {need_efc}), naconmax={naconmax} (need {need_con})", [int(n) > njmax for n in need_efc_w], need_con > naconmax,
+                "forward._next_time", njmax=njmax, naconmax=naconmax)
           if njmax == need_efc:
             acc.hit("exact-fit-efc")
-          if short_efc:
+          if need_efc > njmax:
             acc.hit("short-efc")
+      if jac == "sparse" and need_efc:
+        # Jacobian non-zeros: the demand of world w is the end of its last allocated row in the ample run
+        ra, rn = d0.efc.J_rowadr.numpy(), d0.efc.J_rownnz.numpy()
+        need_nnz_w = [int((ra[w][: need_efc_w[w]] + rn[w][: need_efc_w[w]]).max()) if need_efc_w[w] else 0 for w in range(nworld)]
+        need_nnz = max(need_nnz_w)
+        for nnz in sorted(set([0, 1, max(need_nnz - 1, 0), need_nnz, need_nnz + 1, int(rng.integers(0, need_nnz + 2))])):
+          try:
+            m, d = _step_with(mjw, mjm, mjd, nworld, 200, 100 * nworld, njmax_nnz=nnz)
+          except ValueError:
+            continue
+          acc.evals += 1
+          acc.distinct.add((c, "nnz", nnz))
+          judge(d, f"njmax_nnz={nnz} (need {need_nnz})", [n > nnz for n in need_nnz_w], False, "constraint.make_constraint (njmax_nnz)", njmax_nnz=nnz)
+          acc.hit("short-nnz" if need_nnz > nnz else ("exact-fit-nnz" if need_nnz == nnz else "ample-nnz"))
       acc.sample({"eq": eq, "jac": jac, "cone": cone, "need_efc": need_efc, "need_con": need_con, "nworld": nworld})
 
   if rec:
@@ -108,7 +132,8 @@ def _run(ctx, ncases, rec, per_kernel=1):
 
 
 RULE = ("scene with floor contacts, joint limit, friction loss and one of {connect, weld, joint equality, none}; dense/sparse, both cones, 1-2 worlds; each case first run with ample capacities, "
-        "then njmax swept over {0,1,need-1,need,need+1,random} x naconmax over {need-1,need,need+1}; oracle: exceeded => some bit, no bit => qacc equals the ample result; "
+        "then njmax swept over {0,1,need-1,need,need+1,random} x naconmax over {need-1,need,need+1}, and for sparse Jacobians njmax_nnz over {0,1,need-1,need,need+1,random}; oracle PER WORLD: "
+        "demand exceeds capacity => a capacity bit in that world's overflow word, no capacity bit => that world's qacc equals the ample result; "
         "distinct = (case, njmax, naconmax); interception of the row builders with serial replay of allocation results")
 
 
